@@ -41,6 +41,14 @@ def post(obs, tier, rep):
                 o["witness"] = dict(native=dict(history=f"{entry}; QR; global SR (serial stub); {entry}", max_relative_incoherence_at_propagate_entry=dev))
             except Exception as e:  # noqa
                 o["witness"] = dict(native_error=repr(e)[:200])
+        if o["status"] == "refuted" and o["kind"] != "canary" and ".est.block." in o["name"]:
+            try:
+                dev = native.block_estimator_deviation()
+                o["replayed"] = bool(dev > 1e-8)
+                o["witness"] = dict(native=dict(check="single-block energy vs weight-averaged capped local energy of the returned walkers, e_estimate displaced by 0, +-0.7, +-1.2, +-2.5 radii",
+                                                max_deviation=dev))
+            except Exception as e:  # noqa
+                o["witness"] = dict(native_error=repr(e)[:200])
         if o["status"] == "refuted" and ".sig.dispatch." in o["name"]:
             o["replayed"] = True      # ground fact evaluated on the real dispatcher IS the native replay
         if o["status"] == "refuted" and ".sig.call." in o["name"]:
